@@ -207,6 +207,11 @@ def main() -> int:
         per_cfg[name] = {"cases": len(cases), "tlc_distinct": r.distinct, "tlc_generated": r.generated, "tlc_wall_s": round(r.wall, 1),
                          "constants": {k: v for k, v in consts.items() if k != "alpha"}, "alphabet_classes": len(consts["alpha"].split(","))}
         scns += scenarios(name, cases, priors, offset=len(scns))
+        if name == "all2" or name == "all3":
+            # the LONG one-assignment histories the specification writes out (every site of this configuration)
+            longs = [h for rec in r.printed("LONG") for h in rec]
+            per_cfg[name]["long_cases"] = len(longs)
+            scns += scenarios(name + "L", sorted(longs, key=lambda h: json.dumps(h, sort_keys=True)), priors, offset=len(scns))
     t_tlc = time.time() - t0
     seed = json.load(open(replay)).get("seed", E.seed()) if replay else E.seed()
     t0 = time.time()
